@@ -321,29 +321,34 @@ is free of trailing white space (so `strip_trailing_whitespace` is the identity 
 reads every layout back as `t`. -/
 
 open QM.Frag QM.Parse in
-/-- The pieces the engine prints for the program `t` are a layout of `t`. -/
-theorem fragment_prints_layout (t : T) (h : t.WF) (w : Nat) : LayP t (printPieces (programDoc t) w) := by
+/-- The pieces the engine prints for the program `t` carry the text of a layout of `t`. (The pieces
+    themselves are cut differently in one place: the engine emits a field label `x: ` as one atom,
+    the layout language keeps the space apart.) -/
+theorem fragment_prints_layout (t : T) (h : t.WF) (w : Nat) :
+    ∃ ps, renderPieces (printPieces (programDoc t) w) = renderPieces ps ∧ LayP t ps := by
   unfold printPieces programDoc sequenceDoc Doc.mkGroup
   rw [pl_concat]
   simp only [mkFrames, List.cons_append, List.nil_append]
   obtain ⟨m', hg⟩ := pl_group w 0 0 .brk []
-    (.concat [.concat [.nil, chainDoc (termDoc t), .nil], .nest 0 (.concat [])])
-    (forcesBreak (.concat [.concat [.nil, chainDoc (termDoc t), .nil], .nest 0 (.concat [])]))
+    (.concat [fieldDoc (chainDoc (termDoc t)), .nest 0 (.concat [])])
+    (forcesBreak (.concat [fieldDoc (chainDoc (termDoc t)), .nest 0 (.concat [])]))
   rw [hg, pl_concat]
   simp only [mkFrames, List.cons_append, List.nil_append]
-  obtain ⟨ps, col', hp, hl⟩ := printsAs_fieldDoc (printLoop_term t h) w 0 0 m'
+  obtain ⟨ps', ps, col', hp, hr, hl⟩ := printsAs_fieldDoc (printsAs_chainDoc (printLoop_term t h)) w 0 0 m'
     [⟨0, m', .nest 0 (.concat [])⟩]
-  rw [show Doc.concat [.nil, chainDoc (termDoc t), .nil] = fieldDoc (termDoc t) from rfl, hp,
-    pl_nest, pl_concat]
+  rw [hp, pl_nest, pl_concat]
   simp only [mkFrames, printLoop_nil_nil, List.append_nil]
-  exact hl
+  exact ⟨ps, hr, hl⟩
 
 open QM.Frag QM.Parse in
 /-- `print` of the program's document is the text of that layout: stripping trailing white space
     changes nothing. -/
 theorem fragment_print_eq (t : T) (h : t.WF) (w : Nat) :
-    print (programDoc t) w = renderPieces (printPieces (programDoc t) w) :=
-  strip_layP (fragment_prints_layout t h w)
+    print (programDoc t) w = renderPieces (printPieces (programDoc t) w) := by
+  obtain ⟨ps, hr, hl⟩ := fragment_prints_layout t h w
+  unfold print
+  rw [hr]
+  exact strip_layP hl
 
 open QM.Frag QM.Parse in
 /-- C17 on the fragment: for every program `t` of the fragment and every page width, parsing the
@@ -351,9 +356,9 @@ open QM.Frag QM.Parse in
 theorem format_fixpoint_fragment (t : T) (h : t.WF) (w : Nat) :
     programP (print (programDoc t) w) = .ok t [] := by
   rw [fragment_print_eq t h w]
-  have hl := fragment_prints_layout t h w
-  generalize printPieces (programDoc t) w = ps at hl
-  have hp := termP_lay hl ((renderPieces ps).length + 1) [] (by omega) trivial
+  obtain ⟨ps, hr, hl⟩ := fragment_prints_layout t h w
+  rw [hr]
+  have hp := termP_lay hl ((renderPieces ps).length + 1) [] (by omega) stop_nil
   rw [List.append_nil] at hp
   unfold programP
   rw [seq_ok (wsc_headOk (layP_head hl))]
@@ -374,20 +379,19 @@ open QM.Frag QM.Parse in
     starts, after its indentation, with NUL) and nothing panics. -/
 theorem fmtFrag_eq (t : T) (h : t.WF) :
     fmtFrag t = renderPieces (printPieces (programDoc t) pageWidth) ++ ['\n'] := by
-  have hl := fragment_prints_layout t h pageWidth
+  obtain ⟨ps, hr, hl⟩ := fragment_prints_layout t h pageWidth
   have hp := post_passes_layP hl
   unfold fmtFrag
-  rw [fragment_print_eq t h pageWidth, hp.1, hp.2]
+  rw [fragment_print_eq t h pageWidth, hr, hp.1, hp.2]
 
 open QM.Frag QM.Parse in
 /-- C17 on the fragment, for the whole of `format_program` (layout at `WIDTH`, `collapse_blanks`,
     `expand_literals`): parsing the formatted program gives the program back. -/
 theorem format_program_fixpoint_fragment (t : T) (h : t.WF) : programP (fmtFrag t) = .ok t [] := by
   rw [fmtFrag_eq t h]
-  have hl := fragment_prints_layout t h pageWidth
-  generalize printPieces (programDoc t) pageWidth = ps at hl
-  have hp := termP_lay hl ((renderPieces ps ++ ['\n']).length + 1) ['\n']
-    (by simp; omega) (by simp [IdStop]; decide)
+  obtain ⟨ps, hr, hl⟩ := fragment_prints_layout t h pageWidth
+  rw [hr]
+  have hp := termP_lay hl ((renderPieces ps ++ ['\n']).length + 1) ['\n'] (by simp; omega) stop_nl
   unfold programP
   rw [seq_ok (wsc_headOk ((layP_head hl).append _))]
   exact before_ok (b := ()) hp (by simp [QM.Parse.seq, QM.Parse.bind, wsc, skipWsc, isMultispace, peof])
